@@ -39,6 +39,82 @@ def shift_next(p):
     return nf.subst(p, f)
 
 
+def check_field_owner(ctx, rule):
+    """Ownership of the stored run: `pseudopressure` (of any object) and `time` (of a reservoir) are written only by the
+    `simulate` methods, by a constructor, or by a helper that is called from nowhere else.  A report, plot or fit routine
+    that re-grids, trims or overwrites the stored field leaves levels behind that are no longer the implicit update of
+    their predecessors (the property speaks about the *stored* profile of every step)."""
+    P = ctx.P
+    family = {c.qualname for c in P.classes.values() if any("simulate" in k.methods for k in c.mro())}
+    FIELDS = {"pseudopressure": True, "time": False}  # name -> also on receivers other than self
+
+    def written(fi):
+        out = []
+        in_family = fi.cls is not None and fi.cls.qualname in family
+
+        def target(t, line):
+            while isinstance(t, ast.Subscript):
+                t = t.value
+            if isinstance(t, ast.Attribute) and t.attr in FIELDS:
+                is_self = isinstance(t.value, ast.Name) and t.value.id == "self"
+                if (is_self and in_family) or (FIELDS[t.attr] and not is_self) or (is_self and FIELDS[t.attr] and fi.cls is None):
+                    out.append((t.attr, line))
+            elif isinstance(t, (ast.Tuple, ast.List)):
+                for e in t.elts:
+                    target(e, line)
+
+        for n in ast.walk(fi.node):
+            if isinstance(n, ast.Assign):
+                for t in n.targets:
+                    target(t, n.lineno)
+            elif isinstance(n, (ast.AugAssign, ast.AnnAssign)) and getattr(n, "value", True) is not None:
+                target(n.target, n.lineno)
+            elif isinstance(n, ast.Delete):
+                for t in n.targets:
+                    target(t, n.lineno)
+            elif isinstance(n, ast.Call) and isinstance(n.func, ast.Name) and n.func.id in ("setattr", "delattr") and len(n.args) >= 2:
+                a1 = n.args[1]
+                if isinstance(a1, ast.Constant) and a1.value in FIELDS:
+                    out.append((a1.value, n.lineno))
+        return out
+
+    funcs = [fi for fi in P.functions.values()]
+    callers = {}
+    for fi in funcs:
+        for n in ast.walk(fi.node):
+            if isinstance(n, ast.Call):
+                nm = n.func.id if isinstance(n.func, ast.Name) else n.func.attr if isinstance(n.func, ast.Attribute) else None
+                if nm:
+                    callers.setdefault(nm, set()).add(fi.qualname)
+
+    def owner(fi, seen=()):
+        if fi.name == "simulate" and fi.cls is not None and fi.cls.qualname in family:
+            return True
+        if fi.name in ("__init__", "__post_init__"):
+            return True
+        if fi.parent is not None:
+            return owner(fi.parent, seen)
+        if fi.qualname in seen:
+            return False
+        cs = callers.get(fi.name, set()) - {fi.qualname}
+        return bool(cs) and all(owner(P.functions[c], seen + (fi.qualname,)) for c in cs)
+
+    n = 0
+    for fi in funcs:
+        w = written(fi)
+        if not w:
+            continue
+        n += len(w)
+        ctx.touch(fi.qualname)
+        ok = owner(fi)
+        ctx.check(
+            ok, rule, fi.qualname + ":writes " + "/".join(sorted({a for a, _l in w})), f"{fi.file}:{w[0][1]}",
+            "the stored time grid and pseudopressure field are written by simulate (or its private helpers / a constructor) only",
+            signature="writer " + fi.qualname.split(".")[-1], lines=[l for _a, l in w],
+        )
+    ctx.floor(rule, n, 2, "stores of the simulated field")
+
+
 def check(ctx):
     check_assembly(ctx, "C04-a", exact=True)
     n_loops = 0
@@ -51,6 +127,7 @@ def check(ctx):
 
     fvf_and_alpha(ctx, "C04-g")
     check_all_steps_and_storage(ctx, None, "C04-f")
+    check_field_owner(ctx, "C04-h")
     check_solver_sites(ctx)
     f = ctx.P.func(RES + "MultiPhaseReservoir.simulate")
     if unreachable_after_raise(f.node):
